@@ -34,6 +34,11 @@ Print Assumptions C02_src_skeletons_solo_ok.
 Theorem C02_src_locks_scope_bound : src_locks_scope_bound = true.
 Proof. vm_compute. reflexivity. Qed.
 Print Assumptions C02_src_locks_scope_bound.
+(* the exclusion proved below is per pipeline (per lock): the stateful built-in handlers must not share mutable state between
+   objects living in different pipelines — no file-scope variable that is neither const nor thread_local *)
+Theorem C02_src_handlers_no_shared_mutable_state : src_handlers_no_shared_mutable_state = true.
+Proof. vm_compute. reflexivity. Qed.
+Print Assumptions C02_src_handlers_no_shared_mutable_state.
 (* ALL three entry points are bracketed by one and the same mutex (the handler mutex M): pipeline runs — every handler
    incl. Sink::send — exclude each other however the threads of a run mix the entry points *)
 Theorem C02_src_entry_points_bracketed_family : bracketed_family src_entry_points = true.
